@@ -1386,9 +1386,14 @@ fn gen_slice_items(rng: &mut Rng, shape: &[usize]) -> Vec<SI> {
         let size = shape.get(d).copied().unwrap_or(2).min(1 << 20) as isize;
         let spell = |rng: &mut Rng, v: isize| -> isize {
             // a position 0..=size written from the front or from the back
-            if rng.chance(1, 3) && v < size { v - size } else { v }
+            if rng.chance(1, 3) && v >= 0 && v < size { v - size } else { v }
         };
         let pos = |rng: &mut Rng| -> isize {
+            match rng.below(40) {
+                38 => return isize::MIN + rng.below(2) as isize,
+                39 => return isize::MAX - rng.below(2) as isize,
+                _ => {}
+            }
             match rng.below(8) {
                 0 => size + 1 + rng.below(2) as isize,
                 1 => -size - 1 - rng.below(2) as isize,
